@@ -222,7 +222,7 @@ func (g *generator) flatEpisode() {
 		case 13: // store again into the used directory
 			k2 := g.numSecrets()
 			m2 := "ins"
-			if r.Chance(1, 3) && k2 <= 2 {
+			if r.Chance(1, 4) && k2 <= 1 {
 				m2 = "sec"
 			}
 			g.emit(fmt.Sprintf("store %s %s %s", dir, m2, joinInts(g.secretIDs(k2))))
